@@ -12,7 +12,7 @@ fn fmt_stub2(_a: core::fmt::Arguments<'_>) -> String {
 }
 
 // @harness c15_slice_key_of_top_offset
-// @props C15 C16
+// @props C15 C16 C02 C04
 // @tier quick
 // @timeout 900
 // @needs K0
@@ -61,7 +61,7 @@ fn c15_slice_key_of_top_offset() {
 }
 
 // @harness c16_top_table_flush
-// @props C16 C15
+// @props C16 C15 C02 C04
 // @tier quick
 // @cost 150
 // @timeout 1200
@@ -124,7 +124,8 @@ fn c16_top_table_flush() {
         let blk = (w.off - toff) >> bs;
         assert!(fc.off as usize == env.seg_k0_rb(blk << bs) && fc.len == env.seg_k0_rb((blk + 1) << bs));
         if env.cache_dirty.get() {
-            assert!(n == 3 && env.get_rec(1).kind == K_FSYNC);
+            // whole-file sync between the child slices and the parent block
+            assert!(n == 3 && env.get_rec(1).kind == K_FSYNC && env.get_rec(1).off == 0 && env.get_rec(1).len == usize::MAX);
         } else {
             assert!(n == 2);
         }
@@ -136,7 +137,7 @@ fn c16_top_table_flush() {
 }
 
 // @harness c18_flush_meta_driver
-// @props C18 C03
+// @props C18 C03 C02 C04
 // @tier quick
 // @cost 30
 // @timeout 600
